@@ -598,7 +598,8 @@ std::vector<uint8_t> ref_encode(const EncLayout &L, const EncContent &C0) {
             setd(153 + 2 * e, gen_float_bits(vr));
             hd[2 * (189 - 1) + e] = static_cast<uint8_t>(r.below(2));
             std::string lab = genName(r, 4);
-            for (size_t i = 0; i < 4; ++i) hd[2 * (199 - 1) + 4 * e + i] = i < lab.size() ? static_cast<uint8_t>(lab[i]) : ' ';
+            uint8_t padc = r.chance(1, 2) ? ' ' : 0; // writers pad short labels with blanks or with NULs
+            for (size_t i = 0; i < 4; ++i) hd[2 * (199 - 1) + 4 * e + i] = i < lab.size() ? static_cast<uint8_t>(lab[i]) : padc;
         }
     }
     if (L.reserved_nonzero) {
